@@ -129,6 +129,14 @@ def gen_hist(rng, tier):
                 cases.append(mk("conc-%s-%s-%d" % (t, OPNAME[closer[0]], thr), [t], ["tcp"],
                                 [[[1, 0, 0], [13, 0], closer], [[12, 0]] + [[6, 0]] * 12, [[12, 0]] + [[5, 0]] * 12,
                                  [[12, 0], [6, 0], [7, 0], [6, 0]]], threads=thr))
+    # F2b: the DEALER's background queue processor is parked in a blocking send to a full inproc peer (messages queued
+    # before the first peer, ROUTER with RCVHWM 1 that never reads, extra connects wake the processor) when close()/term() comes
+    for closer in ([8, 0], [11]):
+        for thr in (1, 2):
+            cases.append(mk("dealer-proc-blocked-%s-%d" % (OPNAME[closer[0]], thr), ["DEALER", "ROUTER"], ["inproc", "tcp"],
+                            [[[1, 1, 0], [3, 0, 64, 12], [2, 0, 0], [10, 100]] + [[2, 0, 1], [10, 50]] * 10 + [[10, 200], closer,
+                              [3, 0, 64, 1], [6, 0]]],
+                            opts=[{"LINGER": 200, "SNDTIMEO": -1}, {"LINGER": 0, "RCVHWM": 1}], threads=thr, reap_ms=4500))
     # F3: blocked recv
     for (tb, tc) in [("PULL", "PUSH"), ("SUB", "PUB"), ("REP", "REQ"), ("DEALER", "DEALER"), ("ROUTER", "DEALER")]:
         for closer in ([8, 0], [11]):
